@@ -245,7 +245,7 @@ def general(rec, n, quick):
 
 def run_shard(rec):
     quick = rec.tier == 'quick'
-    rec.deadline = time.time() + (50 if quick else 600)
+    rec.deadline = time.time() + (300 if quick else 600)
     maxL = 230 if quick else 450
     lengths = list(range(1, maxL + 1))
     sweep(rec, lengths, rec.mine)
